@@ -30,6 +30,12 @@ type pubParams struct {
 	HoldP     float64 // when non-zero: probability that the broker withholds an acknowledgement
 	Volatile  bool    // VolatileSession: the library's own in-memory store
 	SlowSaves bool    // scheduling noise at the entry of Persistence.Save
+	// CloseMidPublish: a publish sits between its Save and its write when the
+	// client gets closed (before each restart, or at the end of the episode)
+	CloseMidPublish bool
+	// CleanSession: the configuration asks for a clean session, which holds
+	// for the first connection only (episodes without restart)
+	CleanSession bool
 }
 
 func sizeOf(c *run.Ctx, bigP float64) int {
@@ -96,6 +102,10 @@ func runPubWorkload(c *run.Ctx, pp pubParams) (*Episode, *pubAnalysis, []*sim.Pu
 				time.Sleep(300 * time.Microsecond)
 			}
 		}
+	}
+	if pp.CleanSession && pp.Restarts == 0 {
+		ep.Cfg.CleanSession = true
+		c.Count("episodes_with_clean_session_configured", 1)
 	}
 	if pp.Volatile {
 		pp.Restarts = 0
@@ -190,8 +200,100 @@ func runPubWorkload(c *run.Ctx, pp pubParams) (*Episode, *pubAnalysis, []*sim.Pu
 		<-done
 	}
 
+	// closeMidPublish parks a publisher right behind its Save, closes the client
+	// and lets the publisher go on: whatever the call returns must agree with
+	// what stays in the Persistence.
+	closeMidPublish := func() {
+		w := ep.W
+		w.Mu.Lock()
+		ep.F.Armed = false
+		prev := w.PointPlan
+		armed := true
+		w.PointPlan = func(w *sim.World, point string, n int) sim.PointAction {
+			if armed && point == "submit.saved" {
+				armed = false
+				return sim.PointAction{Park: "midpub"}
+			}
+			if prev != nil {
+				return prev(w, point, n)
+			}
+			return sim.PointAction{}
+		}
+		w.Mu.Unlock()
+		ret := make(chan struct{})
+		go func() {
+			ep.D.Publish(pp.Levels[0], false, 3)
+			close(ret)
+		}()
+		returned := func() bool {
+			select {
+			case <-ret:
+				return true
+			default:
+				return false
+			}
+		}
+		parked := w.WaitUntil(sim.StepTimeout, func() bool { return w.Gate("midpub").Waiting >= 1 || returned() }) && !returned()
+		closed := make(chan struct{})
+		if parked {
+			c.Count("clients_closed_between_save_and_write_of_a_publish", 1)
+			byClose := c.Rng.Intn(2) == 0
+			go func() {
+				// (a reconnect under way waits for the publisher's sequence lock
+				// with the connection lock in hand: Close returns once that is over)
+				if byClose {
+					ep.D.C.Close()
+				} else {
+					ep.D.C.Disconnect(nil)
+				}
+				close(closed)
+			}()
+			// let it take effect when nothing stands in its way
+			select {
+			case <-closed:
+			case <-time.After(20 * time.Millisecond):
+			}
+		} else {
+			close(closed)
+		}
+		w.Mu.Lock()
+		armed = false
+		w.Mu.Unlock()
+		w.Open("midpub")
+		select {
+		case <-ret:
+		case <-time.After(sim.StepTimeout):
+			wedged, report := w.Diagnose(1500 * time.Millisecond)
+			if wedged {
+				c.Violate("publish-never-returns", "a persisted publish that sat between its Save and its write when the client was closed never returned", map[string]any{"report": report, "trace_tail": w.TraceTail(40)})
+			} else {
+				c.Inconclusive("publish slow around Close")
+			}
+			c.Spoiled()
+		}
+		select {
+		case <-closed:
+		case <-time.After(sim.StepTimeout):
+			wedged, report := w.Diagnose(1500 * time.Millisecond)
+			if wedged {
+				c.Violate("close-stuck", "Close or Disconnect issued while a publish sat between its Save and its write never returned", map[string]any{"report": report, "trace_tail": w.TraceTail(40)})
+			} else {
+				c.Inconclusive("Close slow")
+			}
+			c.Spoiled()
+		}
+		w.ResetGate("midpub")
+		w.Mu.Lock()
+		w.PointPlan = prev
+		ep.F.Armed = true
+		w.Mu.Unlock()
+	}
+
 	// stop and restart on the same Persistence, then publish some more
 	for r := 0; r < pp.Restarts; r++ {
+		if pp.CloseMidPublish {
+			closeMidPublish()
+		}
 		if !ep.D.CloseAndWait() {
 			c.Violate("close-stuck", "Close did not end the client at a stop", map[string]any{"trace_tail": ep.W.TraceTail(40)})
 			c.Spoiled()
@@ -225,6 +327,19 @@ func runPubWorkload(c *run.Ctx, pp pubParams) (*Episode, *pubAnalysis, []*sim.Pu
 				ep.W.WaitIdle(sim.StepTimeout)
 			}
 		}
+	}
+
+	if pp.CloseMidPublish && pp.Restarts == 0 {
+		// the episode ends with the closed client; what is pending stays pending
+		closeMidPublish()
+		if !ep.D.CloseAndWait() {
+			c.Violate("close-stuck", "Close did not end the client", map[string]any{"trace_tail": ep.W.TraceTail(40)})
+			c.Spoiled()
+			return ep, nil, nil
+		}
+		ep.D.WatchersDone(sim.StepTimeout)
+		collect()
+		return ep, analyzePubs(ep, all, false), all
 	}
 
 	// faults stop; run to idle
@@ -382,12 +497,14 @@ func init() {
 				SettleP: c.Rng.Float64(),
 				BigP:    0.05,
 			}
+			pp.CleanSession = c.Rng.Intn(4) == 0
 			if c.Case%6 == 4 {
 				pp.Volatile = true
 				c.Count("volatile_session_episodes", 1)
 			} else if c.Rng.Intn(5) == 0 {
 				// the process stops and the session is adopted: what was accepted is still owed
 				pp.Restarts = 1 + c.Rng.Intn(2)
+				pp.CloseMidPublish = c.Rng.Intn(2) == 0
 				c.Count("episodes_with_restarts", 1)
 			}
 			ep, a, all := runPubWorkload(c, pp)
